@@ -228,3 +228,160 @@ func c15Notifies(g *ssa.Function, notify func(ssa.Instruction) bool, depth int) 
 	}
 	return false
 }
+
+// c15Forward is core.Forward extended to a variable CAPTURED by the function the
+// load sits in (robustness round 8: the locals of a goroutine body moved into the
+// fields of a small struct whose method value is run — after the loader split the
+// struct, `rev` is a cell captured by the bound closure and written inside it):
+// a load *fv of a free variable resolves to the value of the nearest preceding
+// store to fv in the same block or its chain of unique predecessors (so the store
+// lies on every path to the load, with no other store of this function in
+// between), provided nobody else can write the cell: at every site where a
+// function of the package creates this closure, the bound cell is a local allocation
+// whose only other uses are stores made before the closure exists, loads, and
+// bindings to this same function. Anything else is left as it is.
+func c15Forward(p *core.Prog, pkg string, v ssa.Value) ssa.Value {
+	for i := 0; i < 8; i++ {
+		v = core.Forward(v)
+		u, ok := v.(*ssa.UnOp)
+		if !ok || u.Op != token.MUL {
+			return v
+		}
+		fv, ok := u.X.(*ssa.FreeVar)
+		if !ok || !c15PrivateCell(p, pkg, fv) {
+			return v
+		}
+		st := c15ReachingStore(u, fv)
+		if st == nil {
+			return v
+		}
+		v = st.Val
+	}
+	return v
+}
+
+// c15ReachingStore: the nearest store to addr before load, in load's block or
+// the chain of its unique predecessors.
+func c15ReachingStore(load *ssa.UnOp, addr ssa.Value) *ssa.Store {
+	b := load.Block()
+	idx := -1
+	for i, in := range b.Instrs {
+		if in == ssa.Instruction(load) {
+			idx = i
+		}
+	}
+	for depth := 0; depth < 8 && b != nil && idx >= 0; depth++ {
+		for i := idx - 1; i >= 0; i-- {
+			if s, ok := b.Instrs[i].(*ssa.Store); ok && s.Addr == addr {
+				return s
+			}
+		}
+		if len(b.Preds) != 1 {
+			return nil
+		}
+		b = b.Preds[0]
+		idx = len(b.Instrs)
+	}
+	return nil
+}
+
+// c15PrivateCell: the cell behind free variable fv of closure g is written by g
+// alone once g exists — in g it is only loaded and stored (never passed on or
+// captured again), and at every creation of g in the enclosing function the
+// bound value is a local allocation used only by stores to it that precede the
+// creation, loads of it and that one closure (an allocation in a loop body is a
+// fresh cell per iteration). The creators are looked up in package pkg.
+func c15PrivateCell(p *core.Prog, pkg string, fv *ssa.FreeVar) bool {
+	g := fv.Parent()
+	if g == nil || fv.Referrers() == nil {
+		return false
+	}
+	idx := -1
+	for i, x := range g.FreeVars {
+		if x == fv {
+			idx = i
+		}
+	}
+	if idx < 0 {
+		return false
+	}
+	for _, r := range *fv.Referrers() {
+		switch x := r.(type) {
+		case *ssa.UnOp:
+			if x.Op != token.MUL {
+				return false
+			}
+		case *ssa.Store:
+			if x.Addr != ssa.Value(fv) {
+				return false // the cell's address escapes
+			}
+		case *ssa.DebugRef:
+		default:
+			return false
+		}
+	}
+	// the creators: a bound method value whose method the variant inlined is a synthetic
+	// function without parent, so every function of the package is searched
+	made := 0
+	var blocks []*ssa.BasicBlock
+	seen := map[*ssa.Function]bool{}
+	for _, f := range p.PkgFuncs(pkg) {
+		for _, h := range core.WithAnon(f) {
+			if !seen[h] {
+				seen[h] = true
+				blocks = append(blocks, h.Blocks...)
+			}
+		}
+	}
+	for _, b := range blocks {
+		for _, in := range b.Instrs {
+			mc, ok := in.(*ssa.MakeClosure)
+			if !ok || mc.Fn != ssa.Value(g) {
+				continue
+			}
+			made++
+			al, ok := mc.Bindings[idx].(*ssa.Alloc)
+			if !ok || al.Referrers() == nil {
+				return false
+			}
+			for _, r := range *al.Referrers() {
+				switch x := r.(type) {
+				case *ssa.MakeClosure:
+					if x != mc {
+						return false // shared with another closure (or a second instance of g)
+					}
+				case *ssa.Store:
+					if x.Addr != ssa.Value(al) {
+						return false
+					}
+					if x.Block() != mc.Block() && !x.Block().Dominates(mc.Block()) {
+						return false
+					}
+					if x.Block() == mc.Block() && !c15Before(x, mc) {
+						return false // written by the creator after g may have started
+					}
+				case *ssa.UnOp:
+					if x.Op != token.MUL {
+						return false
+					}
+				case *ssa.DebugRef:
+				default:
+					return false
+				}
+			}
+		}
+	}
+	return made > 0
+}
+
+func c15Before(a, b ssa.Instruction) bool {
+	for _, in := range a.Block().Instrs {
+		if in == a {
+			return true
+		}
+		if in == b {
+			return false
+		}
+	}
+	return false
+}
